@@ -54,6 +54,8 @@ def flow_b(ctx, mine, n, maxbits, salt):
             ctx.mark("B" + json.dumps([graphs[c["g"] - 1] if len(graphs[c["g"] - 1]) <= 64 else c["g"], c["start"], c["msg"][:64], len(c["msg"]),
                                        c["mode"], c["vtlen"], c["tbl"]]))
         for cl in v:
+            if cl.startswith("conformance:"):
+                ctx.divergence(cl, {"order": len(graphs[c["g"] - 1]), "start": c["start"], "bits": len(c["msg"]), "mode": c["mode"]})
             if cl in mine:
                 small = {k: c[k] for k in ("start", "mode", "vtlen", "enc_out", "dec_out", "ticks")}
                 small.update({"order": len(graphs[c["g"] - 1]), "bits": len(c["msg"]), "msg": c["msg"][:80],
